@@ -56,6 +56,7 @@ class Kernel:
         self.skip_stmts = skip_stmts        # exact unparse text -> None | callable(env)
         self.isinstance_table = isinstance_table  # (name, typename) -> bool
         self.mode = mode
+        self.div_guard = (mode == 'Q')      # Python raises ZeroDivisionError; the model must not totalise x/0
         self.env = {}                       # tracked store: key text -> Val
         self.guards = []                    # list of (cond coq string, exn name)
         self.path = 'true'                  # current path condition (coq bool expr)
@@ -137,6 +138,9 @@ class Kernel:
             raise TranslateError('type %s expected in %s, got %r' % (t, src, v))
 
     def binop(self, op, a, b, src):
+        if self.div_guard and isinstance(op, (ast.Div, ast.FloorDiv, ast.Mod)):
+            z = '(%s =? 0)' % b.s if b.t == 'Z' else '(Qeq_bool %s 0)' % toQ(b)
+            self.guards.append(('(andb %s %s)' % (self.path, z), 'ZeroDivisionError'))
         if a.t == 'Z' and b.t == 'Z':
             if isinstance(op, ast.Add):
                 return Val('(%s + %s)' % (a.s, b.s), 'Z')
